@@ -53,35 +53,18 @@ Proof. exact rebuild_eq_fresh_all. Qed.
 Print Assumptions rebuild_eq_fresh.
 
 (* ---- option-field coverage over translator T3's regenerated inventory ----
+   every field of js_parser.Options that the parser package reads is compared
+   by Options.Equal or is on the justified list (finding C of DESIGN section
+   7-C is fixed in /repo; its witness is replayed by the harness stream
+   c09/known and kept in corpus/C09-C-tsconfig-jsx.json) *)
+Theorem equal_covers_all_fields : equal_covers js_irrelevant js_option_fields = true.
+Proof. exact js_covers. Qed.
+Print Assumptions equal_covers_all_fields.
 
-   Full statement (every field of js_parser.Options that the parser package
-   reads is compared by Options.Equal or is on the justified list):
-       equal_covers js_irrelevant js_option_fields = true
-   It is FALSE of the pinned source (finding C, DESIGN section 7-C): *)
-Theorem equal_covers_all_fields_refuted :
-  exists f, In f js_option_fields /\ of_read f = true /\ of_set f = true /\
-            is_compared (of_cmp f) = false /\ ~ In (of_name f) js_irrelevant.
-Proof. exact js_covers_refuted. Qed.
-Print Assumptions equal_covers_all_fields_refuted.
-
-(* the strongest part that holds: the uncovered fields are exactly the five
-   JSX fields of finding C, nothing else (a newly dropped comparison breaks
-   this theorem) *)
-Theorem equal_covers_all_fields_partial :
-  uncovered js_irrelevant js_option_fields = known_gap_C /\
-  equal_covers (js_irrelevant ++ known_gap_C) js_option_fields = true.
-Proof. exact (conj js_uncovered_exact js_covers_partial). Qed.
-Print Assumptions equal_covers_all_fields_partial.
-
-(* the gap defeats the memo table: a parser reading only fields the real
-   parser reads, two option values Equal cannot tell apart, a stale result *)
-Theorem jsx_gap_breaks_memo_refuted :
-  reads_only Z Z gap_parse js_option_fields js_irrelevant /\
-  table_equal js_option_fields gap_o gap_o' = true /\
-  run_memo (fun s => s) Z.eqb (table_equal js_option_fields) gap_parse [] [(7, gap_o); (7, gap_o')]
-    <> [gap_parse 7 gap_o; gap_parse 7 gap_o'].
-Proof. exact js_gap_breaks_memo. Qed.
-Print Assumptions jsx_gap_breaks_memo_refuted.
+(* the former witness: Equal now distinguishes options that differ in jsx.AutomaticRuntime *)
+Theorem jsx_gap_closed : table_equal js_option_fields gap_o gap_o' = false.
+Proof. exact js_former_gap_closed. Qed.
+Print Assumptions jsx_gap_closed.
 
 (* css_parser.Options and js_parser.JSONOptions are fully covered, and all
    three caches compare the source as well *)
